@@ -369,6 +369,11 @@ func objectDefineOwnProperty(obj *object, name string, descriptor property, thro
 		if !configurable {
 			return reject("property descriptor not configurable")
 		}
+		if descriptor.value == nil {
+			// An accessor becomes a data property and the descriptor has
+			// no value: it is undefined, not the getter/setter pair.
+			descriptor.value = Value{}
+		}
 	case isDataDescriptor && descriptor.isDataDescriptor():
 		// DataDescriptor <=> DataDescriptor
 		if !configurable {
